@@ -18,6 +18,13 @@ CFG = {'SI': dict(seed='SI'), 'metal': dict(length='angstrom', mass='amu', energ
        'nm_g_fs': dict(length='nm', mass='g', time='fs')}
 
 
+def ufac(uc, unit):
+    """value of one <unit> in the working units in force, from the unit table only"""
+    u = uc.unit
+    return {'angstrom': lambda: u['angstrom'], 'nm': lambda: u['nm'], 'GPa': lambda: u['GPa'], 'eV/angstrom^3': lambda: u['eV'] / u['angstrom'] ** 3,
+            'angstrom/ps': lambda: u['angstrom'] / u['ps'], 'e': lambda: u['e']}[unit]()
+
+
 def encode_decode(DM, model, enc):
     if enc == 'tree':
         return model
@@ -63,7 +70,7 @@ def replay_case(am, uc, DM, h):
             shp = tuple(np.shape(back))
             if shp != tuple(ob['shape']):
                 return ('value[%s]: shape %s read back as %s' % (enc, tuple(ob['shape']), shp), 'unit=%s kind=%s' % (unit, ob['kind']))
-            got = uc.get_in_units(back, unit) if unit else np.asarray(back, dtype=float)
+            got = (np.asarray(back, dtype=float) / ufac(uc, unit)) if unit else np.asarray(back, dtype=float)
             if not np.allclose(got, phys, rtol=1e-12, atol=1e-12):
                 return ('value[%s]: physical value changed (unit %s)' % (enc, unit), 'got %s expected %s' % (np.ravel(got)[:4], np.ravel(phys)[:4]))
             if unit is None and kind_of(back) != ob['kind']:
@@ -74,8 +81,8 @@ def replay_case(am, uc, DM, h):
             model = encode_decode(DM, box.model(length_unit=ob['unit']), enc)
             uc.reset_units(**CFG[rs['cfg']])
             b2 = am.Box(model=model)
-            if not np.allclose(uc.get_in_units(b2.vects, 'angstrom'), [[3.0, 0, 0], [0.5, 4.0, 0], [-0.25, 0.75, 5.0]], rtol=1e-12, atol=1e-12) or \
-               not np.allclose(uc.get_in_units(b2.origin, 'angstrom'), [1.0, -2.0, 0.5], rtol=1e-12, atol=1e-12):
+            if not np.allclose(b2.vects / ufac(uc, 'angstrom'), [[3.0, 0, 0], [0.5, 4.0, 0], [-0.25, 0.75, 5.0]], rtol=1e-12, atol=1e-12) or \
+               not np.allclose(b2.origin / ufac(uc, 'angstrom'), [1.0, -2.0, 0.5], rtol=1e-12, atol=1e-12):
                 return ('box[%s]: cell or origin changed' % enc, '')
             return None
         if what == 'elastic':
@@ -89,7 +96,7 @@ def replay_case(am, uc, DM, h):
             model = encode_decode(DM, ec.model(unit=ob['unit'], crystal_system=ob['system']), enc)
             uc.reset_units(**CFG[rs['cfg']])
             e2 = am.ElasticConstants(model=model)
-            if not np.allclose(uc.get_in_units(e2.Cij, 'GPa'), C0, rtol=1e-11, atol=1e-9):
+            if not np.allclose(e2.Cij / ufac(uc, 'GPa'), C0, rtol=1e-11, atol=1e-9):
                 return ('elastic[%s,%s]: stiffness changed' % (enc, ob['system']), 'max diff %r' % np.abs(uc.get_in_units(e2.Cij, 'GPa') - C0).max())
             return None
         # ---- atoms / system ---------------------------------------------------------------------------------
@@ -129,12 +136,12 @@ def replay_case(am, uc, DM, h):
             model = encode_decode(DM, atoms.model(prop_unit=dict(punit)), enc)
             uc.reset_units(**CFG[rs['cfg']])
             a2 = am.Atoms(model=model)
-            if a2.natoms != n or not np.array_equal(a2.atype, atype) or not np.allclose(uc.get_in_units(a2.pos, 'angstrom'), posA, rtol=1e-12, atol=1e-12):
+            if a2.natoms != n or not np.array_equal(a2.atype, atype) or not np.allclose(a2.pos / ufac(uc, 'angstrom'), posA, rtol=1e-12, atol=1e-12):
                 return ('atoms[%s]: atype or pos changed (pos unit %s)' % (enc, ob['posunit']), '')
             return None
         box = am.Box(vects=uc.set_in_units(V, 'angstrom'), origin=uc.set_in_units(o, 'angstrom'))
         symbols = {'all': ['Al', 'Cu'][:nt], 'none': None, 'first': ['Al']}[ob['symbols']]
-        masses = {'all': [26.98, 63.55][:nt], 'none': None}[ob['masses']]
+        masses = {'all': [26.98, 63.55][:nt], 'none': None, 'notfirst': ([None, 63.55][:nt] if nt > 1 else [26.98])}[ob['masses']]
         if masses is not None and symbols is None:
             symbols = [None] * nt
         if masses is not None and symbols is not None and len(symbols) < nt:
@@ -147,7 +154,7 @@ def replay_case(am, uc, DM, h):
         sub = 'system[%s]' % enc
         if s2.natoms != n:
             return (sub + ': natoms changed', '%d -> %d' % (n, s2.natoms))
-        if not np.allclose(uc.get_in_units(s2.box.vects, 'angstrom'), V, rtol=1e-12, atol=1e-12) or not np.allclose(uc.get_in_units(s2.box.origin, 'angstrom'), o, rtol=1e-12, atol=1e-12):
+        if not np.allclose(s2.box.vects / ufac(uc, 'angstrom'), V, rtol=1e-12, atol=1e-12) or not np.allclose(s2.box.origin / ufac(uc, 'angstrom'), o, rtol=1e-12, atol=1e-12):
             return (sub + ': cell or origin changed (box unit %s)' % ob['boxunit'], '')
         if [bool(x) for x in s2.pbc] != [True, False, True]:
             return (sub + ': periodic flags changed', str(s2.pbc))
@@ -158,7 +165,7 @@ def replay_case(am, uc, DM, h):
             return (sub + ': masses changed (%s given)' % ob['masses'], '%s -> %s' % (wmas, m2))
         if not np.array_equal(s2.atoms.atype, atype):
             return (sub + ': atom types changed', '')
-        if not np.allclose(uc.get_in_units(s2.atoms.pos, 'angstrom'), posA, rtol=1e-12, atol=1e-12):
+        if not np.allclose(s2.atoms.pos / ufac(uc, 'angstrom'), posA, rtol=1e-12, atol=1e-12):
             return (sub + ': positions changed (pos unit %s, box unit %s)' % (ob['posunit'], ob['boxunit']), '')
         for p in ob.get('props', []):
             nm = p['name']
@@ -175,7 +182,7 @@ def replay_case(am, uc, DM, h):
             if u == 'scaled':
                 gv = s2.box.position_cartesian_to_relative(got)
             elif u:
-                gv = uc.get_in_units(got, u)
+                gv = np.asarray(got, dtype=float) / ufac(uc, u)
             else:
                 gv = np.asarray(got, dtype=float)
                 if kind_of(got) != p['kind']:
